@@ -88,6 +88,9 @@ class P(Prop):
             return ["OBSOLETE__REV__" + n()] if rng.random() < 0.7 else ["OBSOLETE__rev_" + n()]
         if kind == "empty":
             return []
+        if kind == "ent":  # target groups carrying the identifiers of the entrapment estimate: they are still targets
+            tag = rng.choice(["%s_entrapment", "Random_%s", "mimic|%s", "%s_entrapment"])
+            return [tag % n() + ("" if i == 0 else chr(97 + i)) for i in range(m)]
         if kind == "odd":
             return rng.choice(
                 [
@@ -106,7 +109,7 @@ class P(Prop):
 
     def gen_case(self, rng, tier):
         n = rng.choice([0, 1, 2, 2, 3, 3, 4, 4, 5, 5, 6, 6, 7, 8, 8, 10, 12, 12])
-        kinds = ["T"] * 6 + ["D"] * 3 + ["d"] * 2 + ["mixmark", "mixTD", "oT", "oD", "empty", "odd"]
+        kinds = ["T"] * 6 + ["D"] * 3 + ["d"] * 2 + ["mixmark", "mixTD", "oT", "oD", "empty", "odd", "ent"]
         # per case: sometimes targets or decoys only, sometimes decoy-rich
         r = rng.random()
         if r < 0.05:
@@ -372,3 +375,15 @@ class P(Prop):
                 yield dict(case, infos=inf[:i] + [ev[:1]] + inf[i + 1 :])
         if case["keepAll"]:
             yield dict(case, keepAll=False)
+
+
+# ---- pipeline-level cases (DESIGN.md §5 C01 K(b)): the whole get_protein_group_results for every shipped
+# method against the composed Lean model PgFdr.Pipeline.run, with the C01 statement as the oracle
+import pipeline as _pl  # noqa: E402
+
+_BaseP = P
+
+
+class P(_pl.PipelineMixin, _BaseP):
+    pipeline_share = 0.12
+    pipeline_oracles = ("c01",)
